@@ -422,7 +422,7 @@ pub fn gen_time_on(rng: &mut Rng, o: &TimeOpts, mut case: Case) -> Case {
                 }
                 if rng.pct(o.cancel_pct) {
                     let pos = rng.usize(case.nodes[i].on[k].len() + 1);
-                    case.nodes[i].on[k].insert(pos, Op::Cancel { slot: rng.below(slots as u64) as u8, how: rng.below(3) as u8 });
+                    case.nodes[i].on[k].insert(pos, Op::Cancel { slot: rng.below(slots as u64) as u8, how: rng.below(4) as u8 });
                 }
                 if rng.pct(15) {
                     case.nodes[i].on[k].push(Op::ReadTime);
@@ -475,7 +475,7 @@ pub fn gen_time_on(rng: &mut Rng, o: &TimeOpts, mut case: Case) -> Case {
             script.push(Cmd::StepUntil { when });
             burst_at = None;
         } else if r < 80 + o.cancel_pct {
-            script.push(Cmd::Cancel { slot: rng.below(slots as u64) as u8, how: rng.below(3) as u8 });
+            script.push(Cmd::Cancel { slot: rng.below(slots as u64) as u8, how: rng.below(4) as u8 });
         } else if r < 97 {
             script.push(Cmd::ProcessEvent { target: rng.usize(n) as u16, kind: rng.below(kinds) as u8 });
         } else if o.aux_threads > 0 && case.aux.len() < o.aux_threads {
@@ -489,7 +489,7 @@ pub fn gen_time_on(rng: &mut Rng, o: &TimeOpts, mut case: Case) -> Case {
                 } else if x < 85 {
                     a.push(AuxCmd::ReadTime);
                 } else {
-                    a.push(AuxCmd::Cancel { slot: rng.below(slots as u64) as u8, how: rng.below(3) as u8 });
+                    a.push(AuxCmd::Cancel { slot: rng.below(slots as u64) as u8, how: rng.below(4) as u8 });
                 }
             }
             case.aux.push(a);
